@@ -198,6 +198,13 @@ def run_tokens(shard, rec):
                 line = (" " * rng.choice([0, 0, 1, 3])).join([""]) + (" " * rng.choice([1, 1, 2])).join(toks)
                 if rng.random() < 0.5:
                     indent = rng.choice([" ", "    "])
+                    if rng.random() < 0.12:
+                        # preprocessor lines (module preambles and call templates may carry them; the generator
+                        # moves their '#' to column one afterwards): '#' is an ordinary character for the wrapper
+                        line = rng.choice(['#include "dagrt_config.h"', "#ifdef USE_FAST_PATH", "#endif",
+                                           "#define NSTAGES 10", "x = a##b + 1", "#if defined(A) && defined(B)"]) \
+                            + ("  " + line if rng.random() < 0.3 and "'" not in line and '"' not in line else "")
+                        rec.count("fortran_preprocessor_lines")
                     res = call_wrapper(F_wrap, line, rec, "fortran", level=level, width=width, indentation=indent)
                     target = "fortran"
                 else:
